@@ -30,6 +30,16 @@ DRIVERS = {"Server": ["power_usage_effectiveness", "average_carbon_intensity", "
 
 def make_spec(seed, s):
     rnd = case_rng(seed, s, "C12sys")
+    if s == 0:
+        # one fixed sharing-heavy model guarantees the classes the factor table distinguishes: a network shared by patterns of two
+        # countries, a device shared by two patterns, a storage with idle power, a serverless server
+        sp = gen.base_spec()
+        O = sp["objects"]
+        O["up2"]["params"]["network"] = ["ref", "n1"]
+        O["st1"]["params"]["idle_power"] = ["q", 0.1, "W"]; O["st2"]["params"]["idle_power"] = ["q", 0.1, "W"]
+        O["srv1"]["params"]["server_type"] = ["s", "serverless"]
+        from ..spec import prune
+        return prune(sp)
     return gen.rand_spec(rnd, "quick", jobless_ok=False, max_len=24)
 
 
